@@ -22,7 +22,10 @@ class BoolOperation(object):
         self.lock = Lock()
         self.out = _OutputFuture()
 
-        for f in fs:
+        # Iterate over each distinct future once: an input passed several times is
+        # still a single entry in self.fs, and must be handled (and removed) once.
+        # (Iterate over a copy: handle_done may run right here, for inputs already done.)
+        for f in list(self.fs):
             chain_cancel(self.out, f)
             f.add_done_callback(weak_callback(self.handle_done))
 
